@@ -21,6 +21,8 @@ class Scope:
         self.labels: dict[str, int] = {}
         # symbols that will be defined by the symbol pass (deferred macro arguments), they hide outer definitions.
         self.deferred_symbols: set[str] = set()
+        # labels seen by the code generation, the label pass will define them: they hide outer definitions meanwhile.
+        self.pending_labels: set[str] = set()
 
     def add_label(self, label: str, value: Address) -> None:
         self.labels[label] = value.logical_value
@@ -63,7 +65,7 @@ class Scope:
         if self.parent:
             if symbol in self.symbols or symbol in self.code_symbols:
                 return self[symbol]
-            elif symbol in self.deferred_symbols:
+            elif symbol in self.deferred_symbols or (self.resolver.generating_code and symbol in self.pending_labels):
                 raise SymbolNotDefined(symbol)
             else:
                 return self.parent.value_for(symbol)
@@ -105,6 +107,7 @@ class Resolver:
         self.a = False
         self.x = False
         self.rom_type = RomType.low_rom
+        self.generating_code = False
         self.current_scope_index = 0
         self.last_used_scope = 0
         self.current_scope: Scope = Scope(self)
